@@ -1,5 +1,5 @@
 """C03 tree stays balanced and half-full (spec/tree TreeShape over the read-only VerifShape hook)."""
-from common import mc, lts_replay, drive_tv
+from common import mc, lts_replay, drive_tv, gc_tv
 
 
 def design(ctx):
@@ -49,6 +49,9 @@ def run(ctx):
     drive_tv(ctx, "tree", "Trace_Tree", "tv_Coarse40.cfg", "tree", variant="coarse:40", runs=ctx.pick(5, 30), ops=ctx.pick(250, 500))
     if not ctx.quick():
         drive_tv(ctx, "tree", "Trace_Tree", "tv_Id1300.cfg", "tree", variant="mix:1300", runs=30, ops=4000, timeout=3000)
-    ctx.assumptions += ["'can be garbage collected' is observed as: vacated key/value/child slots hold the zero value and parent links are exact (hook facts)",
+    # the collector's own verdict: values are pointers with finalizers; everything deleted or overwritten must be finalized
+    # after a collection (alternating growth and drains on 18 / 40 / 300 keys, complete drain at the end)
+    gc_tv(ctx, "tree", "tree", ctx.pick(9, 60), ctx.pick(300, 1200))
+    ctx.assumptions += ["'can be garbage collected' is observed as: vacated key/value/child slots hold the zero value and parent links are exact (hook facts), and directly through finalizers of the stored values",
                         "'O(log n) work' is decided as the depth bound plus the comparator-call bound (15 three-way comparisons per level; 30 less-calls for less-constructed trees)",
                         "an empty tree has depth 0"]
